@@ -122,7 +122,9 @@ def examine(ctx, cases):
             if ('exc' in il) != (ml[0] != 'ok') or ('exc' in il and il['exc'] != ml[1]):
                 ctx.violation('correspondence:C09-frequency_components', f'impl {il} model {ml}', rep, kind='obligation')
             continue
-        mws = [float(x) for x in ml[1]]
+        # the model lists exact products w*k; the implementation's binary64 products are their correctly rounded values and
+        # are merged bit-wise: round, merge, sort (part of the stated comparison: the rounding itself is not modelled)
+        mws = sorted(set(float(x) for x in ml[1]))
         if len(mws) != len(il['ws']) or any(abs(a - b) > 1e-12 * max(1.0, abs(b)) for a, b in zip(il['ws'], mws)):
             ctx.violation('correspondence:C09-frequency_components', f'impl {il["ws"]} model {mws}', rep, kind='obligation')
         # ---- oracle on the list
